@@ -517,9 +517,10 @@ func (b *broker) syncUnsubscribe(subscriber *wamp.Session, msg *wamp.Unsubscribe
 	delete(sub.subscribers, subscriber)
 
 	// If no more subscribers on this subscription, delete subscription and
-	// send on_delete meta event.
+	// send on_delete meta event. A subscription that keeps event history
+	// exists independently of its subscribers.
 	var delLastSub bool
-	if len(sub.subscribers) == 0 {
+	if _, keep := b.eventHistoryStore[sub]; len(sub.subscribers) == 0 && !keep {
 		b.syncDelSubscription(sub)
 		delLastSub = true
 	}
@@ -571,8 +572,9 @@ func (b *broker) syncRemoveSession(subscriber *wamp.Session) {
 		// Remove subscribed session from subscription.
 		delete(sub.subscribers, subscriber)
 
-		// If no more subscribers on this subscription.
-		if len(sub.subscribers) == 0 {
+		// If no more subscribers on this subscription, delete it unless it
+		// keeps event history.
+		if _, keep := b.eventHistoryStore[sub]; len(sub.subscribers) == 0 && !keep {
 			b.syncDelSubscription(sub)
 			// Fired when a subscription is deleted after the last session
 			// attached to it has been removed.
